@@ -241,6 +241,9 @@ func (rn *runner) feed() {
 				if w.closedAt != 0 && e.Seq >= w.closedAt {
 					rn.viol("C02", "frame-after-close", "DATA for stream %d (app %d) after the stream was closed and the connection quiescent: %s", e.Stream, w.idx, e.String())
 				}
+				if w.rstIn {
+					rn.viol("C02", "frame-after-own-rst", "DATA on stream %d after the client itself reset it: %s", e.Stream, e.String())
+				}
 				if w.endStream > 0 {
 					rn.viol("C02", "data-after-endstream", "DATA after END_STREAM on stream %d: %s", e.Stream, e.String())
 				}
